@@ -14,9 +14,6 @@ Require Import List Arith Bool Lia.
 Require Import Raft.Quorum Raft.RaftModel Raft.RaftSys Raft.RaftLog Raft.RaftStepProps Raft.RaftCC.
 Import ListNotations.
 
-Definition isconf (p : nat) : bool :=
-  match cc_of_payload p with Some _ => true | None => false end.
-
 (* pendingConfIndex discipline of one node; log index = S (list position) *)
 Definition PD (n : nstate) (pend : nat) : Prop :=
   n_role n = Leader ->
